@@ -2,7 +2,7 @@
   C06 helper lemmas, part 1: minimum cost per face, locality of `flatten`.
 -/
 import NdnVerif.C06.Model
-import NdnVerif.C05.LemmasRun
+import NdnVerif.C05.LemmasCall
 namespace Ndn.C06
 open Ndn.C05
 
